@@ -62,3 +62,17 @@ pub fn spawn_probe(role: u8, cfg: SpawnCfg) -> OwningAddr<P> {
         Strat::NonRestartable => b.non_restartable().spawn_owning(),
     }
 }
+
+/// Drives a future to completion inside scene setup (no task context): polls it with a no-op
+/// waker; the lock shim's yield points return `Pending` once each, nothing else may block.
+pub fn block_inline<T>(fut: impl std::future::Future<Output = T>) -> T {
+    let mut fut = std::pin::pin!(fut);
+    let waker = futures::task::noop_waker();
+    let mut cx = std::task::Context::from_waker(&waker);
+    for _ in 0..64 {
+        if let std::task::Poll::Ready(t) = fut.as_mut().poll(&mut cx) {
+            return t;
+        }
+    }
+    panic!("block_inline: future did not complete (scene setup must not block)");
+}
